@@ -172,8 +172,8 @@ def corpus_programs(start_idx):
         return TypeSwitch("", None, VarRef(e), [TCase([fty], [Print(True, [StrLit(b"func() int")])]),
                                                   TCase([("named", d)], [Print(True, [StrLit(b"named Fn")])]),
                                                   TCase([], [Print(True, [StrLit(b"other")])], default=True)])
-    ok1, ok2 = Var(P.slot(), "ok", BOOL), Var(P.slot(), "ok", BOOL)
-    t1, t2 = Var(P.slot(), "t", fty), Var(P.slot(), "t", ("named", d))
+    ok1, ok2 = Var(P.slot(), "ok1", BOOL), Var(P.slot(), "ok2", BOOL)
+    t1, t2 = Var(P.slot(), "t1", fty), Var(P.slot(), "t2", ("named", d))
     m.body = [Decl([x], [ToIface("any", ConvNamed(("named", d), FuncRef(one, fty)))]), Decl([y], [ToIface("any", FuncRef(one, fty))]),
               sw(x), sw(y),
               Decl([t1, ok1], [Assert(VarRef(x), fty, True)]), Decl([t2, ok2], [Assert(VarRef(y), ("named", d), True)]),
